@@ -24,5 +24,12 @@ Proof.
   destruct (run E D apps st evs) as [[stf rec] num]. exact (proj2 H).
 Qed.
 
+From Lospan Require Import Model.Steps Proof.SchedProof.
+(* The concurrent clause is FALSE of the model of the present code: two handlers of one device both number
+   their answer with the FCntDn their snapshot holds (witness schedule; KNOWN_FINDINGS.txt: sched-downlink-counter-reused). *)
+Theorem C07_concurrent_reuse_refuted : flat_map w_fcnt_of (snd copies_result) = [3%N; 3%N].
+Proof. exact concurrent_downlink_counter_reused_refuted. Qed.
+
 Print Assumptions C07_step.
 Print Assumptions C07_seq.
+Print Assumptions C07_concurrent_reuse_refuted.
